@@ -3,7 +3,7 @@
    PARTIAL for the re-parse clause: that parsing the displayed text yields the same executable lines, wants and
    modes is checked on the implementation for every generated doctest (it needs the tokenizer); what is proved is
    that the displayed lines ARE the parsed lines, and what every displayed number is. *)
-From XD Require Import Model.Base Model.Parser Model.Text Model.Format Proofs.FormatProofs.
+From XD Require Import Model.Base Model.Parser Model.Text Model.Format Spec.Partition Spec.Labels Proofs.FormatProofs Proofs.Reparse.
 
 (* without colours or numbers, with or without prompts and wants: each source line and each want line of each part,
    once and in order (for parts whose lines hold no line-break characters) *)
@@ -44,3 +44,39 @@ Print Assumptions C18_linenos_are_positions.
 Theorem C18_splitlines_join : forall ls, Forall (fun l => Clean l /\ l <> []) ls -> splitlines (join_nl ls) = ls.
 Proof. exact splitlines_join. Qed.
 Print Assumptions C18_splitlines_join.
+
+(* the display in terms of the DOCSTRING (prose included): with prompts and wants, without colours or numbers, it is the
+   docstring's source and want lines chunk by chunk, each chunk de-indented by the indentation of its first line,
+   prose left out -- for every tokenizer oracle and every ast oracle that reports statement starts inside the source *)
+Theorem C18_display_is_docstring : forall o s items off lineno,
+  AstInRange o -> parse o s = Parsed items -> Forall ShownOK (parts_of items) ->
+  exists (ll : list (label * str)) gs,
+    length ll = length (splitlines (normalize_docstring s)) /\
+    Forall2 SameLineUpToHack ll (splitlines (normalize_docstring s)) /\
+    flatten_chunks gs = map snd ll /\
+    format_src (parts_of items) false true off true false lineno = join_nl (concat (map chunk_shown gs)).
+Proof. exact display_is_docstring. Qed.
+Print Assumptions C18_display_is_docstring.
+(* the re-parse clause, PARTIAL: for a docstring made of well-formed examples (Spec/Labels.v) at one indentation and no
+   prose between them, parsing the displayed text yields the very same items (executable lines, wants, modes, offsets).
+   Missing: docstrings with prose (removing the prose may merge neighbouring want-less examples into one chunk, which
+   only a compositional ast oracle keeps apart) -- those are checked on the implementation per generated doctest *)
+Theorem C18_reparse_partial : forall o ind exs s items off lineno,
+  AstInRange o -> exs <> [] -> Forall (fun e => ex_ind e = ind) exs ->
+  Chain (o_bal o) TEXT O (map BEx exs) ->
+  splitlines (normalize_docstring s) = exs_lines exs ->
+  Forall LineOK (exs_lines (map ex0 exs)) ->
+  parse o s = Parsed items ->
+  format_src (parts_of items) false true off true false lineno = join_nl (exs_lines (map ex0 exs)) /\
+  parse o (format_src (parts_of items) false true off true false lineno) = Parsed items.
+Proof. exact reparse_displayed. Qed.
+Print Assumptions C18_reparse_partial.
+(* grouping and packaging look at labels and de-indented lines only (what the re-parse rests on) *)
+Theorem C18_grouping_ignores_text_of_lines : forall g ll,
+  group_lines (map (on_snd g) ll) = res_map (map (chunk_map g)) (group_lines ll).
+Proof. exact group_lines_map. Qed.
+Print Assumptions C18_grouping_ignores_text_of_lines.
+Theorem C18_packaging_ignores_indentation : forall o ind src want n, Forall (IndLine ind) src ->
+  package_chunk o (map (skipn ind) src) (map (skipn ind) want) n = package_chunk o src want n.
+Proof. exact package_chunk_dedent. Qed.
+Print Assumptions C18_packaging_ignores_indentation.
